@@ -148,12 +148,31 @@ def add_rule(router, sinks, r):
         router.add_rule(sink, "test_id", test_id=IDS[r["key"]], **kw)
 
 
+REJECTED = {
+    # why -> (documented exception class, the call)
+    "slash": (TypeError, lambda router, sink, kw: router.add_rule(sink, "route_code_prefix", route_prefix=SEG["a"] + "/1", **kw)),
+    "unknown-policy": (ValueError, lambda router, sink, kw: router.add_rule(sink, "route_code_prefixa", route_prefix=SEG["a"], **kw)),
+    "bad-keyword": (
+        TypeError,
+        lambda router, sink, kw: router.add_rule(sink, "route_code_prefix", route_prefix=SEG["a"], consume_routes=True, **kw),
+    ),
+}
+
+
+def add_rule_rejected(router, sinks, r):
+    """An add_rule call the router must reject (add_rule docstring: ValueError / TypeError)."""
+    kw = {"do_start_stop_run": True} if r["dss"] else {}
+    REJECTED[r["kind"]][1](router, sinks[r["sink"]], kw)
+
+
 def names(entries):
     return "+".join(n for n, _ in entries) or "-"
 
 
-def replay(conf, hist):
-    """Replay one behaviour; return a list of (step, clause, signature, expected, observed)."""
+def replay(conf, hist, drift=None):
+    """Replay one behaviour; return a list of (step, clause, signature, expected, observed).
+    Deviations the property does not speak about (a rejected add_rule raising another exception class, or not
+    raising) are appended to `drift`; after a non-raising one the rest of the behaviour is not compared."""
     from testtools.testresult import real
 
     sinks = {s: Sink() for s in SINKS}
@@ -172,6 +191,8 @@ def replay(conf, hist):
                 router.stopTestRun()
             elif a == "addRule":
                 add_rule(router, sinks, h["r"])
+            elif a == "addRuleRejected":
+                add_rule_rejected(router, sinks, h["r"])
             else:
                 send(router, h["e"])
         except tlc.MachineryError:
@@ -224,6 +245,17 @@ def replay(conf, hist):
             if a == "addRule":
                 r = h["r"]
                 ctx = "addRule:%s:dss=%s" % ("in-run" if h["inrun"] else "out-of-run", r["dss"])
+            elif a == "addRuleRejected":
+                r = h["r"]
+                ctx = "addRuleRejected:%s:%s:dss=%s" % (r["kind"], "in-run" if h["inrun"] else "out-of-run", r["dss"])
+                want_exc = REJECTED[r["kind"]][0]
+                if exc is None:
+                    if drift is not None:
+                        drift.append("C18 add_rule(%s) was accepted; rest of the behaviour not compared" % r["kind"])
+                    break
+                if not isinstance(exc, want_exc) and drift is not None:
+                    drift.append("C18 add_rule(%s) raised %s, documented: %s" % (r["kind"], type(exc).__name__, want_exc.__name__))
+                exc = None  # the rejection itself is expected; what follows checks that NOTHING else happened
             else:
                 ctx = a
             if exc is not None:
@@ -247,7 +279,7 @@ def replay(conf, hist):
 
 def nontrivial_key(conf, hist):
     """Non-trivial: a status event with >= 2 candidate destinations (several rules, or a rule and a fallback),
-    an event that went through StreamToQueue, or a rule added while a run was in progress."""
+    an event that went through StreamToQueue, a rule added while a run was in progress, or a rejected add_rule."""
     nrules = 0
     hit = False
     for h in hist:
@@ -255,6 +287,8 @@ def nontrivial_key(conf, hist):
             nrules += 1
             if h["inrun"]:
                 hit = True
+        elif h["a"] == "addRuleRejected":
+            hit = True
         elif h["a"] == "status":
             if nrules + (conf["fallback"] != "none") >= 2 or h["e"]["via"]:
                 hit = True
@@ -272,6 +306,9 @@ def _abstract(conf, hist):
                 "add_rule(%s, %s=%s%s%s)"
                 % (r["sink"], r["kind"], r["key"], ", consume" if r["consume"] else "", ", start_stop" if r["dss"] else "")
             )
+        elif h["a"] == "addRuleRejected":
+            r = h["r"]
+            out.append("add_rule(%s, <%s>%s) -> rejected" % (r["sink"], r["kind"], ", start_stop" if r["dss"] else ""))
         elif h["a"] == "status":
             e = h["e"]
             out.append(
@@ -297,11 +334,14 @@ def run(tier, pid="C18"):
         "with / without fallback and with do_start_stop_run on / off, exported by TLC (exhaustive up to the bounds of "
         "spec/stream/rt_*.cfg) or by tlc -simulate; each replayed into a real StreamResultRouter with per-call "
         "comparison of every sink. Non-trivial = a status event with >= 2 candidate destinations, an event that went "
-        "through StreamToQueue, or a rule added during a run; distinct by (configuration, call sequence).",
+        "through StreamToQueue, a rule added during a run, or an add_rule call the router must reject (\"/\" in the "
+        "prefix, unknown policy, misspelt policy keyword; with and without do_start_stop_run, in and out of a run, "
+        "followed by later runs and valid rules for the same sink); distinct by (configuration, call sequence).",
     )
     rep.assume("two rules for the same key, and registering one sink twice for start/stop, are outside the property (ambiguous / 'once per run')")
     rep.assume("status() is called between startTestRun and stopTestRun")
     rep.assume("with no destination the call must raise (any exception) and deliver nothing")
+    rep.assume("a rejected add_rule must raise and change nothing observable; the exception class (docstring: ValueError for an unknown policy, TypeError for bad policy arguments) is reported as DRIFT only")
     rep.assume("queue items are handed on the way ConcurrentStreamTestSuite does: pop 'event', status(**item)")
     q = tier == "quick"
     acts = ["StartTestRun", "StopTestRun", "AddRule", "Status"]
@@ -309,14 +349,15 @@ def run(tier, pid="C18"):
         ("rt_expRoute.cfg", {}, True, acts),
         ("rt_expSS.cfg", {}, True, acts[:3]),
         ("rt_expMix.cfg", {}, True, acts),
+        ("rt_expRej.cfg", {}, True, acts + ["AddRuleRejected"]),
     ]
     if q:
-        jobs.append(("rt_simA.cfg", dict(simulate=dict(num=100, depth=30), seed=rep.seed + 21), True, acts))
+        jobs.append(("rt_simA.cfg", dict(simulate=dict(num=100, depth=30), seed=rep.seed + 21), True, acts + ["AddRuleRejected"]))
     else:
         jobs.append(("rt_mcA.cfg", {}, False, acts))
         jobs.append(("rt_mcB.cfg", {}, False, acts))
         jobs.append(("rt_expRoute3.cfg", {}, True, acts))
-        jobs.append(("rt_simA.cfg", dict(simulate=dict(num=4000, depth=30), seed=rep.seed + 21), True, acts))
+        jobs.append(("rt_simA.cfg", dict(simulate=dict(num=4000, depth=30), seed=rep.seed + 21), True, acts + ["AddRuleRejected"]))
     for cfg, kw, do_replay, need in jobs:
         r = tlc.run_tlc("stream", "MCRouter", cfg, coverage=True, timeout=1500, workers=8, **kw)
         tlc.require_ok(r, "C18 " + cfg)
@@ -330,7 +371,10 @@ def run(tier, pid="C18"):
             conf = {"fallback": b["fallback"], "fbss": b["fbss"]}
             hist = b["hist"]
             nk = nontrivial_key(conf, hist)
-            bad = replay(conf, hist)
+            drift = []
+            bad = replay(conf, hist, drift)
+            for d in drift:
+                rep.note_drift(d)
             rep.case(
                 sample={"calls": _abstract(conf, hist)} if nk and rep.evaluations % 9001 == 23 else None,
                 nontrivial_key=nk,
@@ -353,7 +397,13 @@ def run(tier, pid="C18"):
             "C18 rt_mcCoded.cfg: the asCoded variant should violate StartStopExact, TLC says violated=%s error=%s"
             % (r.violated, r.error)
         )
-    rep.extra["asCoded_variant"] = ["rt_mcCoded.cfg: StartStopExact violated"]
+    r = tlc.run_tlc("stream", "MCRouter", "rt_mcRegFirst.cfg", timeout=600, workers=8)
+    if r.violated != "StartStopExact":
+        raise tlc.MachineryError(
+            "C18 rt_mcRegFirst.cfg: the registerFirst variant (sink registered before the rule is validated) should "
+            "violate StartStopExact, TLC says violated=%s error=%s" % (r.violated, r.error)
+        )
+    rep.extra["asCoded_variant"] = ["rt_mcCoded.cfg: StartStopExact violated", "rt_mcRegFirst.cfg: StartStopExact violated"]
     if not rep.samples:
         rep.sample({"note": "see tlc_runs"})
     rep.exhaustive = False
